@@ -478,7 +478,10 @@ pub fn drive(args: &[String]) {
     let mut body = vec![];
     for (set, nums) in [(1u32, (0u32..=83).chain([5000]).collect::<Vec<u32>>()), (2, (0..=206).chain([300, 70000]).collect()), (3, vec![1, 2]), (77, vec![1])] {
         for nn in nums {
-            body.push(SInst { op: 12, rt: Some(50), rid: Some(200 + body.len() as u32), ops: vec![SOp::one("IdRef", set), SOp::one("LiteralExtInstInteger", nn), SOp::one("IdRef", 60), SOp::one("IdRef", 61)] });
+            let mut ops = vec![SOp::one("IdRef", set), SOp::one("LiteralExtInstInteger", nn), SOp::one("IdRef", 60), SOp::one("IdRef", 61)];
+            // (more arguments than any of these instructions declares: every one is shown)
+            if nn % 3 == 1 { ops.push(SOp::one("IdRef", 62)); ops.push(SOp::one("IdRef", 61 + nn % 2)); }
+            body.push(SInst { op: 12, rt: Some(50), rid: Some(200 + body.len() as u32), ops });
         }
     }
     // no argument ids at all (the shortest OpExtInst still names its instruction)
